@@ -10,3 +10,8 @@ import MtailVerif.Props.C09
 #print axioms MtailVerif.C09.same_datum_iff_equal_tuple
 #print axioms MtailVerif.C09.metric_skeletons
 #print axioms MtailVerif.C09.datum_skeletons
+#print axioms MtailVerif.C09.f_datum_datum_skeletons
+#print axioms MtailVerif.C09.f_metrics_metric_skeletons
+#print axioms MtailVerif.C09.f_datum_int_skeletons
+#print axioms MtailVerif.C09.f_datum_float_skeletons
+#print axioms MtailVerif.C09.f_datum_string_skeletons
